@@ -1,6 +1,7 @@
 """Helpers shared by the per-property checks."""
 from __future__ import annotations
 
+import os
 import sys
 import traceback
 from typing import Any, Optional
@@ -52,8 +53,9 @@ def exc_site(e: BaseException) -> str:
     """file:function of the innermost /repo frame (stable across line shifts)."""
     tb = traceback.extract_tb(e.__traceback__)
     for fr in reversed(tb):
-        if fr.filename.startswith("/repo/"):
-            return f"{fr.filename[len('/repo/'):]}:{fr.name}"
+        root = (os.path.realpath(os.environ.get("VERIF_REPO") or "/repo")) + "/"
+        if fr.filename.startswith(root):
+            return f"{fr.filename[len(root):]}:{fr.name}"
     return "?"
 
 
